@@ -23,15 +23,27 @@ def extra_facts(ctx, leg):
         byhdr.setdefault(a['header'], []).append(a)
     for k, (hdr, als) in enumerate(sorted(byhdr.items())):
         lines = ['#include <stddef.h>', '#include "%s"' % hdr, 'typedef unsigned long long verif_u64;']
+        # a legacy name may be a macro or (equally usable) an enumerator: no #ifdef - names the compiler reports as
+        # undeclared are dropped from the unit and come out as "no longer defined"
+        body = []
         for a in als:
-            lines.append('#ifdef %s' % a['macro'])
-            lines.append('const verif_u64 verif_alias_%s = (verif_u64)(%s);' % (a['macro'], a['macro']))
-            # as an operand without parentheses of ours (an expansion `A + 1` would change value here)
-            lines.append('const verif_u64 verif_aliasop_%s = (verif_u64)(7 * %s * 3) + 1000000ULL * (verif_u64)(5000 + - %s);'
-                         % (a['macro'], a['macro'], a['macro']))
-            lines.append('#endif')
+            body.append((a['macro'], ['const verif_u64 verif_alias_%s = (verif_u64)(%s);' % (a['macro'], a['macro']),
+                                      # as an operand without parentheses of ours (an expansion `A + 1` would change value here)
+                                      'const verif_u64 verif_aliasop_%s = (verif_u64)(7 * %s * 3) + 1000000ULL * (verif_u64)(5000 + - %s);'
+                                      % (a['macro'], a['macro'], a['macro'])]))
         p = os.path.join(d, 'alias_%d.c' % k)
-        open(p, 'w').write('\n'.join(lines) + '\n')
+        for attempt in range(8):
+            open(p, 'w').write('\n'.join(lines + [l for (_, ls) in body for l in ls]) + '\n')
+            rc, so, se = build.run([build.CLANG, '-fsyntax-only', '-std=gnu99', '-ferror-limit=0', '-Wno-everything',
+                                    '-I', os.path.join(build.REPO, 'include'), p] + build.TARGETS[ctx.target])
+            if rc == 0:
+                break
+            import re as _re
+            gone = set(_re.findall(r"use of undeclared identifier '(\w+)'", se))
+            nb = [(m_, ls) for (m_, ls) in body if m_ not in gone]
+            if len(nb) == len(body):
+                break
+            body = nb
         srcs.append(p)
     # the same alias macros with every other public header included first: a legacy name must designate the same
     # field whatever else the translation unit uses (pairs that do not compile at all are C20's business)
